@@ -245,6 +245,43 @@ theorem storesLoop_wod_of_mem (arr : List (Nat × ShardRes)) (q : List QPR) (n :
     · exact ih _ _ _ (hw' (by simp)) hn'
     · simp at h0
 
+/-- without a short-circuit answer the loop always reaches its epilogue -/
+theorem storesLoop_noSC (arr : List (Nat × ShardRes)) (q : List QPR) (n : Nat) (b : Bool)
+    (h : ∀ e ∈ arr, e.2 ≠ .wod ∧ e.2 ≠ .tmf ∧ e.2 ≠ .nilResp) :
+    (0 < n + nbad arr → (q ++ oks arr ≠ [] → storesLoop arr q n b = .data (q ++ oks arr) true) ∧
+      (q ++ oks arr = [] → ∃ k, storesLoop arr q n b = .err k ∧ k ≠ .wod ∧ k ≠ .tmf)) ∧
+    (n + nbad arr = 0 → storesLoop arr q n b = .data (q ++ oks arr) false) := by
+  induction arr generalizing q n b with
+  | nil =>
+    simp only [storesLoop, oks, nbad, List.append_nil, Nat.add_zero]
+    refine ⟨fun hn => ⟨fun hq => ?_, fun hq => ?_⟩, fun hn => ?_⟩
+    · rw [if_pos hn]; cases q with
+      | nil => exact absurd rfl hq
+      | cons x xs => simp
+    · rw [if_pos hn, hq]; simp only [List.isEmpty_nil, if_true]
+      cases b <;> simp
+    · rw [if_neg (by omega)]
+  | cons a rest ih =>
+    obtain ⟨s, r⟩ := a
+    have hrest : ∀ e ∈ rest, e.2 ≠ .wod ∧ e.2 ≠ .tmf ∧ e.2 ≠ .nilResp := fun e he => h e (List.mem_cons_of_mem _ he)
+    have h0 := h (s, r) List.mem_cons_self
+    cases r with
+    | ok rep ids t e =>
+      simp only [storesLoop, oks, nbad]
+      have := ih (q ++ [⟨(s, rep), ids, t, e⟩]) n b hrest
+      simpa [List.append_assoc] using this
+    | wod => simp at h0
+    | tmf => simp at h0
+    | nilResp => simp at h0
+    | tmu =>
+      simp only [storesLoop, oks, nbad]
+      have := ih q (n + 1) true hrest
+      refine ⟨fun _ => (this.1 (by omega)), fun hn => by omega⟩
+    | failed =>
+      simp only [storesLoop, oks, nbad]
+      have := ih q (n + 1) b hrest
+      refine ⟨fun _ => (this.1 (by omega)), fun hn => by omega⟩
+
 /-! ### order on IDs -/
 
 theorem idLt_irrefl (a : ID) : idLt a a = false := by simp [idLt]
@@ -542,13 +579,14 @@ theorem isMergedTop_unique (rev : Bool) (P : List ID → Prop) (f g : List ID)
 def Honest (hot cold : List (List Call)) (offset size : Nat) (rev : Bool) : Outcome → Prop
   | .err _ => True
   | .panic => ∃ calls ∈ hot ++ cold, calls = []
-  | .ok ids _ _ partialResp usedCold =>
+  | .ok ids _ nerr partialResp usedCold =>
     let tier := if usedCold then cold else hot
     (∃ full, IsMergedTop rev (fun l => ∃ s rep, Answered tier s rep l) full ∧
       ids.map (·.1) = (full.drop offset).take size) ∧
     (∀ p ∈ ids, ∃ l, Answered tier p.2.1 p.2.2 l ∧ p.1 ∈ l) ∧
     (partialResp = false ↔ ∀ calls ∈ tier, (searchShard calls).isOk = true) ∧
     (partialResp = true → ∃ calls ∈ tier, (searchShard calls).isOk = true) ∧
+    (nerr = 0 → ∀ calls ∈ tier, ∀ rep l t e, searchShard calls = .ok rep l t e → e = 0) ∧
     (usedCold = true → ∃ calls ∈ hot, searchShard calls = .wod)
 
 theorem mem_arrival {tier : List (List Call)} {arr : List (Nat × ShardRes)}
@@ -560,6 +598,16 @@ theorem mem_arrival {tier : List (List Call)} {arr : List (Nat × ShardRes)}
 theorem mem_tier_of_getElem? {tier : List (List Call)} {s : Nat} {calls : List Call} (h : tier[s]? = some calls) :
     calls ∈ tier := List.mem_of_getElem? h
 
+theorem sum_zero_mem (l : List Nat) (h : l.sum = 0) : ∀ x ∈ l, x = 0 := by
+  induction l with
+  | nil => simp
+  | cons y ys ih =>
+    simp only [List.sum_cons] at h
+    intro x hx
+    rcases List.mem_cons.mp hx with h' | h'
+    · omega
+    · exact ih (by omega) x h'
+
 theorem tier_facts (tier : List (List Call)) (arr : List (Nat × ShardRes))
     (hp : arr.Perm (indexed 0 (tier.map searchShard))) (qs : List QPR) (p : Bool)
     (h : searchStores arr = .data qs p) (offset size : Nat) (rev : Bool) :
@@ -567,13 +615,15 @@ theorem tier_facts (tier : List (List Call)) (arr : List (Nat × ShardRes))
       (paginate (mergeQPRs rev (offset + size) qs).ids offset size).map (·.1) = (full.drop offset).take size) ∧
     (∀ x ∈ paginate (mergeQPRs rev (offset + size) qs).ids offset size, ∃ l, Answered tier x.2.1 x.2.2 l ∧ x.1 ∈ l) ∧
     (p = false ↔ ∀ calls ∈ tier, (searchShard calls).isOk = true) ∧
-    (p = true → ∃ calls ∈ tier, (searchShard calls).isOk = true) := by
+    (p = true → ∃ calls ∈ tier, (searchShard calls).isOk = true) ∧
+    ((mergeQPRs rev (offset + size) qs).nerr = 0 →
+      ∀ calls ∈ tier, ∀ rep l t e, searchShard calls = .ok rep l t e → e = 0) := by
   obtain ⟨h1, h2, h3, h4⟩ := storesLoop_data arr [] 0 false qs p h
   simp only [List.nil_append, Nat.zero_add] at h1 h2
   have hq : ∀ q, q ∈ qs ↔ ∃ calls, tier[q.src.1]? = some calls ∧ searchShard calls = .ok q.src.2 q.ids q.total q.nerr := by
     intro q; rw [h1, mem_oks, mem_arrival hp]
   have hspec := mergedFull_spec rev qs
-  refine ⟨⟨(mergedFull rev qs).map (·.1), ⟨?_, ?_⟩, ?_⟩, ?_, ?_, ?_⟩
+  refine ⟨⟨(mergedFull rev qs).map (·.1), ⟨?_, ?_⟩, ?_⟩, ?_, ?_, ?_, ?_⟩
   · exact List.pairwise_map.mpr hspec.1
   · intro x
     constructor
@@ -621,5 +671,10 @@ theorem tier_facts (tier : List (List Call)) (arr : List (Nat × ShardRes))
     | cons q _ =>
       obtain ⟨calls, hc1, hc2⟩ := (hq q).mp List.mem_cons_self
       exact ⟨calls, mem_tier_of_getElem? hc1, by simp [hc2, ShardRes.isOk]⟩
+  · intro hz calls hc rep l t e hok
+    obtain ⟨s, hs⟩ := List.getElem?_of_mem hc
+    have hm : (⟨(s, rep), l, t, e⟩ : QPR) ∈ qs := (hq _).mpr ⟨calls, hs, hok⟩
+    simp only [mergeQPRs] at hz
+    exact sum_zero_mem _ hz e (List.mem_map.mpr ⟨_, hm, rfl⟩)
 
 end SV.ProxySearch
